@@ -3,12 +3,31 @@ package main
 import (
 	"encoding/json"
 	"fmt"
+	"math"
 	"math/big"
 	"strconv"
 	"strings"
 )
 
-func init() { generators["C05"] = genC05 }
+func init() {
+	generators["C05"] = func(tier, out string, sum *Summary) {
+		runPrecision(sum, "beyond-float-precision")
+		// the 64-bit limits are numbers like any other: exact quotients and remainders
+		for _, c := range [][2]string{{"`-9223372036854775808` // `-1`", "9223372036854775808"}, {"`-9223372036854775808` % `-1`", "0"}, {"`9223372036854775807` // `-1`", "-9223372036854775807"}, {"`-9223372036854775808` // `1`", "-9223372036854775808"},
+			{"`4611686018427387904` * `2`", "9223372036854775808"}, {"`-4611686018427387904` * `2` // - `1`", "9223372036854775808"}, {"`9223372036854775807` + `1`", "9223372036854775808"}, {"`-9223372036854775808` - `1`", "-9223372036854775809"},
+			{"`-9.223372036854775808e18` // `-1.0`", "9223372036854775808"}, {"`18446744073709551615` // `1`", "18446744073709551615"}, {"`18446744073709551616` % `10`", "6"}, {"`-9223372036854775809` // `-1`", "9223372036854775809"}, {"`9223372036854775808` % `9223372036854775807`", "1"},
+			{"a // b", "9223372036854775808"}, {"to_number('-9223372036854775808') // b", "9223372036854775808"}, {"abs(a)", "9223372036854775808"}, {"- a", "9223372036854775808"}, {"a * b", "9223372036854775808"}, {"a / b", "9223372036854775808"}} {
+			for _, doc := range []any{map[string]any{"a": json.Number("-9223372036854775808"), "b": json.Number("-1")}, map[string]any{"a": int64(math.MinInt64), "b": int64(-1)}, map[string]any{"a": int64(math.MinInt64), "b": json.Number("-1")}} {
+				o := search(c[0], doc)
+				sum.count("int64-limits/" + o.Kind)
+				if !(o.Kind == "val" && sameValue(o.Value, json.Number(c[1]), false)) {
+					sum.direct("int64-limits", c[0], doc, "expected "+c[1]+", got "+describe(o))
+				}
+			}
+		}
+		genC05(tier, out, sum)
+	}
+}
 
 func randDigits(n int) string {
 	var b strings.Builder
